@@ -230,6 +230,36 @@ fn bulk_refs(si: usize, sc: &Value) -> Value {
     node.verif_reference_counter().store(start, Ordering::SeqCst);
     let per = total / n;
     let mut hs = Vec::new();
+    // "failing": next to the threads that make references, as many threads issue operations that make a reference and then fail
+    // (Node::monitor / unlink towards a node whose connection is in the table but not connected): PidAlloc!RefFail
+    let failing = sc["failing"].as_bool().unwrap_or(false);
+    let stop = Arc::new(std::sync::atomic::AtomicBool::new(false));
+    let mut failers = Vec::new();
+    if failing {
+        let peer = "ghost@127.0.0.1";
+        let conn = edp_client::Connection::new(edp_client::ConnectionConfig::new("verif@127.0.0.1", peer, "cookie"));
+        node.connections().insert(peer.to_string(), Arc::new(tokio::sync::Mutex::new(conn)));
+        for _ in 0..n {
+            let (nd, st) = (node.clone(), stop.clone());
+            failers.push(std::thread::spawn(move || {
+                let rt = tokio::runtime::Builder::new_current_thread().enable_all().build().expect("rt");
+                let from = erltf::ExternalPid::new(Atom::new("verif@127.0.0.1"), 1, 0, 1);
+                let to = erltf::ExternalPid::new(Atom::new("ghost@127.0.0.1"), 1, 0, 1);
+                let mut failed = 0u64;
+                rt.block_on(async {
+                    while !st.load(Ordering::Relaxed) {
+                        if nd.monitor(&from, &to).await.is_err() {
+                            failed += 1;
+                        }
+                        if nd.unlink(&from, &to).await.is_err() {
+                            failed += 1;
+                        }
+                    }
+                });
+                failed
+            }));
+        }
+    }
     for _ in 0..n {
         let nd = node.clone();
         hs.push(std::thread::spawn(move || {
@@ -245,6 +275,8 @@ fn bulk_refs(si: usize, sc: &Value) -> Value {
     for h in hs {
         refs.extend(h.join().unwrap_or_default());
     }
+    stop.store(true, Ordering::Relaxed);
+    let failed_ops: u64 = failers.into_iter().map(|h| h.join().unwrap_or(0)).sum();
     let made = refs.len() as u64;
     let wrong_shape = refs.iter().filter(|r| r.0.len() != 3).count();
     let mut triples: Vec<Vec<u32>> = refs.iter().map(|r| r.0.clone()).collect();
@@ -253,10 +285,11 @@ fn bulk_refs(si: usize, sc: &Value) -> Value {
     let first_dup = triples.windows(2).find(|w| w[0] == w[1]).map(|w| json!(w[0]));
     let mut words: Vec<u32> = refs.iter().flat_map(|r| r.0.iter().copied()).map(|w| w.wrapping_sub(start)).collect();
     words.sort_unstable();
-    let consecutive = words.iter().enumerate().all(|(i, w)| *w as usize == i);
+    // (with failing operations drawing from the same counter in between, the words of the references kept are distinct but not consecutive)
+    let consecutive = failing || words.iter().enumerate().all(|(i, w)| *w as usize == i);
     let first_off = words.iter().enumerate().find(|(i, w)| **w as usize != *i).map(|(i, w)| json!({"position": i, "word_relative_to_start": w}));
     json!({"scenario": si, "bulk_refs": true, "threads": n, "made": made, "duplicates": dup, "first_duplicate": first_dup, "wrong_shape": wrong_shape,
-           "words_are_the_counter_values": consecutive, "first_deviation": first_off, "events": 0, "infeasible_steps": [], "schedule_len": 0})
+           "words_are_the_counter_values": consecutive, "first_deviation": first_off, "failed_operations_alongside": failed_ops, "events": 0, "infeasible_steps": [], "schedule_len": 0})
 }
 
 pub fn run(args: &[String]) -> i32 {
